@@ -130,8 +130,12 @@ def case(seed, ops=None, hook=None):
     b = histrun.run_history(seed, pf, tag='c17b', ops=[tuple(o) for o in a['ops']], hook=hook or hook_with)
     anoms = [x for x in b['anoms'] if x['cls'] in ('query-failed', 'roles', 'ood-lower', 'ood-upper', 'ood-after-build')]
     # differential verdict on traces only (which scripts ran, exit codes)
-    ha = [(h.get('argv'), h.get('rc'), h.get('ran')) for h in a['hist'] if h['op'] == 'build']
-    hb = [(h.get('argv'), h.get('rc'), h.get('ran')) for h in b['hist'] if h['op'] == 'build']
+    # in a failing command which siblings were started before the failure became known depends on hash
+    # order (redo-unlocked's argument list) and scheduling, so only its status is compared
+    def norm(h):
+        return (h.get('argv'), h.get('rc'), h.get('ran') if h.get('rc') == 0 else None)
+    ha = [norm(h) for h in a['hist'] if h['op'] == 'build']
+    hb = [norm(h) for h in b['hist'] if h['op'] == 'build']
     if not a['anoms'] and ha != hb:
         k = next((i for i, (x, y) in enumerate(zip(ha, hb)) if x != y), min(len(ha), len(hb)))
         anoms.append(Anomaly(cls='differential', key='queries-change-later-builds',
